@@ -22,9 +22,16 @@ EXP = z3.Function("exp", z3.RealSort(), z3.RealSort())
 AXIOMS = [
     "sqrt(t) = r with r >= 0 and r*r = t (exact); side condition t >= 0",
     "exp(t) > 0; exp(0) = 1 (by constant folding); exp strictly increasing on occurring arguments",
-    "log(t): side condition t > 0; log(1) = 0; strictly increasing on occurring arguments; "
-    "1 - 1/t <= log t <= t - 1",
+    "log(t): side condition t > 0; log(1) = 0; strictly increasing and concave on occurring arguments "
+    "((log a - log b) * b <= a - b); log(1/t) = -log t; 1 - 1/t <= log t <= t - 1; "
+    "log(a*b) = log a + log b instantiated on demand (one round) for the triangle-inequality harnesses",
 ]
+
+
+def _norm(t):
+    """canonical form of an argument term (sum of monomials), so that equal polynomials written in
+    different shapes share one sqrt variable / one uninterpreted-function application"""
+    return z3.simplify(t, som=True)
 
 
 def _state():
@@ -44,16 +51,17 @@ def sqrt(x):
             return nan
         return _m.sqrt(x)
     eng = engine()
-    t = z3.simplify(to_real(x))
+    t = z3.simplify(to_real(x))          # constraints are stated on the term as written
     st = _state()
-    key = t.get_id()
+    kt = _norm(t)                         # ... the memo key on its canonical polynomial form
+    key = kt.get_id()
     if key in st["sqrt"]:
         return st["sqrt"][key][1]
     eng.require(t >= 0, "non-negative radicand")
     r = z3.Real(eng.fresh("sqrt"))
     eng.assume(z3.And(r >= 0, r * r == t))
-    res = SymReal(r)
-    st["sqrt"][key] = (t, res)
+    res = SymReal(eng.rounded(r)) if eng.rounding else SymReal(r)
+    st["sqrt"][key] = (kt, res)
     return res
 
 
@@ -61,9 +69,15 @@ def exp(x):
     if not is_sym(x):
         return _m.exp(x)
     eng = engine()
-    t = z3.simplify(to_real(x))
+    t = _norm(to_real(x))
     st = _state()
     y = EXP(t)
+    if LEVEL == "none":
+        for (t2, y2) in st["exp"]:
+            if t2.eq(t):
+                return SymReal(y)
+        st["exp"].append((t, y))
+        return SymReal(y)
     ax = [y > 0, z3.Implies(t == 0, y == 1), z3.Implies(t < 0, y < 1), z3.Implies(t > 0, y > 1)]
     for (t2, y2) in st["exp"]:
         if t2.eq(t):
@@ -83,22 +97,52 @@ def log(x):
             return nan
         return _m.log(x)
     eng = engine()
-    t = z3.simplify(to_real(x))
+    t = _norm(to_real(x))
     st = _state()
     for (t2, y2) in st["log"]:
         if t2.eq(t):
             return SymReal(y2)
     eng.require(t > 0, "positive log argument")
+    return SymReal(_log_occurrence(eng, st, t))
+
+
+LEVEL = "full"     # "none": log/exp are plain uninterpreted functions (congruence only)
+
+
+def _log_occurrence(eng, st, t):
+    """register LOG(t) with the axioms instantiated against the arguments seen so far"""
     y = LOG(t)
+    if LEVEL == "none":
+        st["log"].append((t, y))
+        return y
     ax = [z3.Implies(t == 1, y == 0), z3.Implies(t > 1, y > 0), z3.Implies(t < 1, y < 0),
           y <= t - 1, y * t >= t - 1]
     for (t2, y2) in st["log"]:
+        # concavity (tangent line at the other point), valid for all positive arguments; implies monotonicity
+        ax.append((y - y2) * t2 <= t - t2)
+        ax.append((y2 - y) * t <= t2 - t)
         ax.append(z3.Implies(t < t2, y < y2))
         ax.append(z3.Implies(t2 < t, y2 < y))
         ax.append(z3.Implies(t == t2, y == y2))
+        ax.append(z3.Implies(t * t2 == 1, y + y2 == 0))       # log(1/t) = -log(t)
     st["log"].append((t, y))
     eng.assume(z3.And(ax))
-    return SymReal(y)
+    return y
+
+
+def log_product_closure():
+    """instantiate log(a*b) = log(a) + log(b) for every pair of arguments seen so far (one round);
+    the products become occurrences themselves, so monotonicity / concavity relate them to the rest"""
+    eng = engine()
+    st = _state()
+    occ = list(st["log"])
+    for i in range(len(occ)):
+        for j in range(i, len(occ)):
+            t = _norm(occ[i][0] * occ[j][0])
+            if any(t2.eq(t) for (t2, _) in st["log"]):
+                continue
+            y = _log_occurrence(eng, st, t)
+            eng.assume(y == occ[i][1] + occ[j][1])
 
 
 def fabs(x):
